@@ -13,6 +13,7 @@ def run(rep, tier, seed):
         gen_and_replay(rep, wd, exe, "Gen_C13.tla", "C13_d3", {"Depth": 3}, {"Kinds": "CoreKinds"}, timeout=6000)
         asis_refuted(rep, wd, "Gen_C13.tla", "C13_asis", {"Depth": 1, "FixTry": "FALSE"}, {"Kinds": "WrapKinds"},
                      ("TryRestoresState",))
+    repo_suite_traces(rep, wd)
     rep.exhaustive = True
 
 def replay(path):
